@@ -142,7 +142,9 @@ class AG:
             if c == "sub":
                 o["_insub"] = o.get("_insub", 0) + 1
                 try:
-                    h = rng.pick(["lookup", "eq", "ne", "not", "and", "or", "len"])
+                    h = rng.pick(["lookup", "eq", "ne", "not", "and", "or", "len"] + (["wr", "wr"] if o.get("wr") else []))
+                    if h == "wr":
+                        return {"a": "sub", "h": h, "args": [self.arg(scopes)]}
                     if h == "lookup":
                         base = self.arg(scopes, want="coll")
                         bv = self.value_of(base, scopes)
@@ -188,7 +190,9 @@ class AG:
             return {"t": "comment", "s": rng.pick(["", "c", "x"])}
         if k == "expr":
             a = self.arg(scopes)
-            while a["a"] == "lit":
+            while a["a"] == "lit" or (a["a"] == "sub" and a["h"] == "wr"):
+                # a writing helper used as an expression writes its text itself (unescaped): only its use as a
+                # SUBEXPRESSION is part of the reference's value semantics
                 a = self.arg(scopes)
             if a["a"] == "sub":
                 return {"t": "hexpr", "h": a["h"], "args": a["args"], "html": rng.chance(o["html"])}
